@@ -567,6 +567,90 @@ func looksLikeSQL(s string) bool {
 	return sqlShape.MatchString(s)
 }
 
+// CheckCallers: `calledonlyby f g`: every static call of fn in the loaded program sits in a function whose name contains
+// one of the listed names (a gate proved at the listed callers covers every use of the function).
+func CheckCallers(P *Program, fn *ssa.Function, c *FuncContract) *FuncReport {
+	ex := NewExec(P)
+	ex.top = fn
+	rep := &FuncReport{Func: ex.fnName(fn) + " (callers)", Key: c.Key, ex: ex}
+	n := 0
+	var scan func(f *ssa.Function)
+	scan = func(f *ssa.Function) {
+		for _, b := range f.Blocks {
+			for _, in := range b.Instrs {
+				var cc *ssa.CallCommon
+				switch x := in.(type) {
+				case *ssa.Call:
+					cc = &x.Call
+				case *ssa.Go:
+					cc = &x.Call
+				case *ssa.Defer:
+					cc = &x.Call
+				}
+				uses := cc != nil && cc.StaticCallee() == fn
+				if !uses {
+					// the function used as a value (method value, closure binding) escapes the gate as well
+					for _, op := range in.Operands(nil) {
+						if *op == ssa.Value(fn) && (cc == nil || cc.Value != *op) {
+							uses = true
+						}
+					}
+				}
+				if !uses {
+					continue
+				}
+				ok := false
+				name := ex.fnName(f)
+				for _, a := range c.OnlyCallers {
+					if strings.Contains(name, a) {
+						ok = true
+					}
+				}
+				o := &Obligation{Name: fmt.Sprintf("%s#callers[%d]", ex.fnName(fn), n), Kind: "sql.text",
+					Detail: "the function is used only by " + strings.Join(c.OnlyCallers, ", ") + " (found in " + name + ")",
+					Goal:   ex.p.Bool(ok), PC: ex.p.True(), Func: ex.fnName(fn), Props: c.Props, Pos: P.pos(in.Pos())}
+				ex.obls = append(ex.obls, o)
+				n++
+			}
+		}
+		for _, a := range f.AnonFuncs {
+			scan(a)
+		}
+	}
+	for _, sp := range P.ByPath {
+		if sp == nil {
+			continue
+		}
+		for _, m := range sp.Members {
+			switch x := m.(type) {
+			case *ssa.Function:
+				scan(x)
+			case *ssa.Type:
+				for _, t := range []types.Type{x.Type(), types.NewPointer(x.Type())} {
+					ms := P.SSA.MethodSets.MethodSet(t)
+					for i := 0; i < ms.Len(); i++ {
+						if mf := P.SSA.MethodValue(ms.At(i)); mf != nil && mf.Synthetic == "" && mf.Pkg == sp {
+							if _, ptr := t.(*types.Pointer); ptr == (mf.Signature.Recv() != nil && isPtrRecv(mf)) {
+								scan(mf)
+							}
+						}
+					}
+				}
+			}
+		}
+	}
+	rep.Obligations = ex.obls
+	return rep
+}
+
+func isPtrRecv(f *ssa.Function) bool {
+	if f.Signature.Recv() == nil {
+		return false
+	}
+	_, ok := f.Signature.Recv().Type().(*types.Pointer)
+	return ok
+}
+
 // CheckSQLPins: the SQL statements whose semantics a trusted data-access contract assumes must be exactly the
 // statements in the function's current source (string constants of its SSA, closures included).
 func CheckSQLPins(P *Program, fn *ssa.Function, c *FuncContract) *FuncReport {
